@@ -20,6 +20,8 @@ DOC = {
     'R9': 'one struct field type replaced by an opaque stand-in (Vec<Box<dyn Mutator>> is outside Verus)',
     'R10': 'top-level `match opcode {..}` split into one function per arm plus a generated dispatcher that is itself verified against the shared contract',
     'R11': 'is_some_and(|c| E) -> match on the Option with the closure body inlined',
+    'R16': 'for _ in 0..N { B } -> let mut vf_i = 0; while vf_i < N { B; vf_i += 1 } (B without continue)',
+    'R15': 'X.iter().filter(|&&op| P).copied().collect() -> explicit while loop pushing the elements that satisfy P, in order',
     'R14': 'ghost threading: calls of contracted functions get ghost arguments (Ghost(..)) appended and ghost bookkeeping statements after them; executable arguments unchanged',
     'R12': 'statement-level text substitution listed in the template (exact old text -> new text), used for std calls Verus has no spec for',
 }
@@ -195,6 +197,44 @@ def r12all(text, args, label):
         ALL[0] = False
 
 
+def r16(text, args, label):
+    """for _ in 0..N { B }  ->  let mut vf_i: usize = 0; while vf_i < N { B vf_i += 1; }   (B has no `continue`)"""
+    m = mask(text)
+    mm = re.search(r'for\s+_\s+in\s+0\s*\.\.\s*(\w+)\s*\{', m)
+    if not mm:
+        raise LostAnchor('%s: R16 pattern not found' % label)
+    n = mm.group(1)
+    o = mm.end() - 1
+    c = match_close(m, o)
+    body = text[o + 1:c]
+    if re.search(r'\bcontinue\b', mask(body)):
+        raise LostAnchor('%s: R16 loop body contains continue' % label)
+    new = 'let mut vf_i: usize = 0;\n        while vf_i < %s {%s    vf_i += 1;\n        }' % (n, body)
+    return text[:mm.start()] + new + text[c + 1:]
+
+
+def r15(text, args, label):
+    """X.iter().filter(|&&op| P).copied().collect()  ->  explicit loop pushing the elements that satisfy P
+    (same order).  Optional args: text appended to the call arguments of `self.F(` inside P is not
+    needed -- ghost arguments are added by R14 afterwards."""
+    m = mask(text)
+    mm = re.search(r'([\w.]+)\s*\.iter\(\)\s*\.filter\(\s*\|\s*&&(\w+)\s*\|', m)
+    if not mm:
+        raise LostAnchor('%s: R15 pattern not found' % label)
+    v, x = mm.group(1), mm.group(2)
+    o = m.index('(', m.index('.filter', mm.start()))
+    c = match_close(m, o)
+    pred = text[mm.end():c].strip()
+    tail = re.match(r'\s*\.copied\(\)\s*\.collect\(\)', m[c + 1:])
+    if not tail:
+        raise LostAnchor('%s: R15 expects .copied().collect() after the filter' % label)
+    end = c + 1 + tail.end()
+    new = ('{\n        let mut vf_out: Vec<OpcodeKind> = Vec::new();\n        let mut vf_i: usize = 0;\n'
+           '        while vf_i < %s.len() {\n            let %s = %s[vf_i];\n            if %s {\n                vf_out.push(%s);\n            }\n'
+           '            vf_i += 1;\n        }\n        vf_out\n    }' % (v, x, v, pred, x))
+    return text[:mm.start()] + new + text[end:]
+
+
 def r14(text, args, label):
     """Ghost threading: every call statement `self.F(ARGS);` (or expression `self.F(ARGS)`) of a
     contracted function F gets ghost arguments appended and ghost bookkeeping after it.
@@ -228,7 +268,7 @@ def r14(text, args, label):
     return ''.join(out)
 
 
-RULES = {'R12ALL': r12all, 'R14': r14, 'R1': r1, 'R2': r2, 'R3': r3, 'R11': r11, 'R12': r12}
+RULES = {'R16': r16, 'R15': r15, 'R12ALL': r12all, 'R14': r14, 'R1': r1, 'R2': r2, 'R3': r3, 'R11': r11, 'R12': r12}
 
 
 def apply(name, text, args, label):
